@@ -1355,7 +1355,11 @@ class TTNS(TTNBase):
             indices1 = tuple(indices1)
             indices2 = tuple(indices2)
             new_node.tensor[indices1] = node1.tensor
-            new_node.tensor[indices2] = node2.tensor
+            if node1 is self.root and not node1.children:
+                # a single-node tree has no virtual index to direct-sum over: plain sum
+                new_node.tensor[indices2] += node2.tensor
+            else:
+                new_node.tensor[indices2] = node2.tensor
             if node1 is self.root:
                 np.testing.assert_allclose(node1.qn, node2.qn)
                 new_node.qn = node1.qn.copy()
